@@ -95,6 +95,7 @@ def corpus_cases():
         c.op("snap", t)
         cases.append(c)
     cases += hist.matrix_cases("c12", ["mem", "phys", "alt_mem", "ovl_mm", "ovl_sub", "alt_ovl"])
+    cases += hist.long_path_cases("c12", ["mem", "phys", "alt_mem", "ovl_mm", "ovl_sub"])
     return cases
 
 
